@@ -2,7 +2,8 @@
 //! body: `<co|th> ; chain ; chain ; …`  chain = level>level>…(!|.)   level = red_kb:size_kb:frame_kb:catch(0|1)
 //! Each level burns `frame_kb` of stack, then calls the next level through maybe_grow_with(red, size).
 //! A chain ending in `!` panics in its innermost callback; a level with catch=1 catches what unwinds
-//! out of the maybe_grow_with call it makes.
+//! out of the maybe_grow_with call it makes. `L~D`: the innermost callback of L panics while it holds
+//! a value whose destructor runs the chain D — growth requests made *while unwinding*.
 //! out per chain: per call `d<depth before>,m<0 enough|1 short|2 near>,g<grew>,i<depth inside>,k<room ok>` … then `a<depth after> v<result>`
 use crate::rng::Rng;
 use open_coroutine_core::coroutine::suspender::Suspender;
@@ -25,6 +26,21 @@ pub fn gen(r: &mut Rng, thorough: bool) -> String {
             prev_red = red;
             let catch = if r.chance(1, 3) { 1 } else { 0 };
             levels.push(format!("{red}:{size}:{frame}:{catch}"));
+        }
+        if r.chance(1, 5) {
+            // a drop chain that runs during the unwinding of this chain's panic
+            let dd = r.range(1, 4);
+            let mut dl = Vec::new();
+            let mut pr = prev_red;
+            for _ in 0..dd {
+                let red = *r.pick(&[32u64, 64, 96, 128]);
+                let size = *r.pick(&[256u64, 512]);
+                let frame = *r.pick(&[1u64, 8, 24, 48]).min(&(pr / 4));
+                pr = red;
+                dl.push(format!("{red}:{size}:{frame}:0"));
+            }
+            chains.push(format!("{}~{}", levels.join(">"), dl.join(">")));
+            continue;
         }
         let end = if r.chance(2, 5) { "!" } else { "." };
         chains.push(format!("{}{}", levels.join(">"), end));
@@ -56,13 +72,22 @@ fn remaining(is_co: bool, seg: Option<(usize, usize)>) -> Option<usize> {
     seg.map(|(top, size)| size.saturating_sub(top.saturating_sub(sp)))
 }
 
-fn run_levels(is_co: bool, levels: &[Level], panic_at_end: bool, seg: Option<(usize, usize)>) -> usize {
+struct DropChain { is_co: bool, levels: Vec<Level>, seg: Option<(usize, usize)> }
+impl Drop for DropChain {
+    fn drop(&mut self) { let _ = run_levels(self.is_co, &self.levels, false, self.seg, &[]); }
+}
+
+fn run_levels(is_co: bool, levels: &[Level], panic_at_end: bool, seg: Option<(usize, usize)>, on_unwind: &[Level]) -> usize {
     if levels.is_empty() {
-        if panic_at_end { panic!("chain panic"); }
+        if panic_at_end {
+            let _guard = if on_unwind.is_empty() { None } else { Some(DropChain { is_co, levels: on_unwind.to_vec(), seg }) };
+            panic!("chain panic");
+        }
         return 7;
     }
     let l = levels[0];
     let rest = levels[1..].to_vec();
+    let unw = on_unwind.to_vec();
     let mut cont = move || -> usize {
         let d0 = depth(is_co);
         let rem = remaining(is_co, seg);
@@ -70,6 +95,7 @@ fn run_levels(is_co: bool, levels: &[Level], panic_at_end: bool, seg: Option<(us
         // 0 = clearly enough, 1 = clearly short, 2 = too close to call / unknown
         let m = match rem { None => if !is_co && d0 == 0 { 1 } else { 2 }, Some(x) => if x >= red + 4096 { 0 } else if x + 4096 <= red { 1 } else { 2 } };
         let rest2 = rest.clone();
+        let unw2 = unw.clone();
         let call = move || {
             Coroutine::<(), (), ()>::maybe_grow_with(red, l.size * 1024, move || {
                 let di = depth(is_co);
@@ -79,7 +105,7 @@ fn run_levels(is_co: bool, levels: &[Level], panic_at_end: bool, seg: Option<(us
                 let room = remaining(is_co, seg2);
                 let room_ok = room.map_or(true, |x| x + 4096 >= red);
                 LOG.with(|g| g.borrow_mut().push(format!("d{d0},m{m},g{},i{di},k{}", grew as u8, room_ok as u8)));
-                run_levels(is_co, &rest2, panic_at_end, seg2)
+                run_levels(is_co, &rest2, panic_at_end, seg2, &unw2)
             })
         };
         if l.catch {
@@ -95,17 +121,21 @@ fn run_levels(is_co: bool, levels: &[Level], panic_at_end: bool, seg: Option<(us
     burn(l.frame, &mut cont)
 }
 
-fn parse_chain(c: &str) -> (Vec<Level>, bool) {
+fn parse_levels(body: &str) -> Vec<Level> {
+    body.split('>').filter(|l| !l.is_empty()).map(|l| { let f: Vec<usize> = l.split(':').map(|x| x.parse().unwrap()).collect(); Level { red: f[0], size: f[1], frame: f[2], catch: f[3] == 1 } }).collect()
+}
+
+fn parse_chain(c: &str) -> (Vec<Level>, bool, Vec<Level>) {
+    if let Some((l, d)) = c.split_once('~') { return (parse_levels(l), true, parse_levels(d)); }
     let panic_at_end = c.ends_with('!');
     let body = c.trim_end_matches(['!', '.']);
-    let levels = body.split('>').map(|l| { let f: Vec<usize> = l.split(':').map(|x| x.parse().unwrap()).collect(); Level { red: f[0], size: f[1], frame: f[2], catch: f[3] == 1 } }).collect();
-    (levels, panic_at_end)
+    (parse_levels(body), panic_at_end, Vec::new())
 }
 
 fn run_chain(is_co: bool, c: &str) -> String {
-    let (levels, p) = parse_chain(c);
+    let (levels, p, unw) = parse_chain(c);
     LOG.with(|g| g.borrow_mut().clear());
-    let r = std::panic::catch_unwind(std::panic::AssertUnwindSafe(|| run_levels(is_co, &levels, p, None)));
+    let r = std::panic::catch_unwind(std::panic::AssertUnwindSafe(|| run_levels(is_co, &levels, p, None, &unw)));
     let v = match r { Ok(v) => v.to_string(), Err(_) => "unwound".to_string() };
     let log = LOG.with(|g| g.borrow().join(" "));
     format!("{log} a{} v{v}", depth(is_co))
